@@ -86,6 +86,7 @@ func (m *Model) Infer(t *syntax.Transaction) {
 		if credit == m.account {
 			if a := m.inferAccount(t, &t.Bookings[i], debit); !a.Empty() {
 				t.Bookings[i].Credit = a
+				credit = a.Extract()
 			}
 		}
 		if debit == m.account {
